@@ -3,6 +3,7 @@ package checks
 import (
 	"errors"
 	"fmt"
+	"github.com/openziti/storage/ast"
 	"sort"
 	"strings"
 
@@ -19,13 +20,14 @@ import (
 // C05 — link collections stay symmetric; ref-counted links agree on both sides.
 
 type linkModel struct {
-	as, bs map[string]bool
-	links  map[[2]string]bool // (a,b)
-	rc     map[[2]string]int  // (a,b) -> count >= 1
+	rcPathA, rcPathB []string // where the two sides of the ref-counted collection are stored below the entity bucket
+	as, bs           map[string]bool
+	links            map[[2]string]bool // (a,b)
+	rc               map[[2]string]int  // (a,b) -> count >= 1
 }
 
 func (m *linkModel) Clone() explore.Model {
-	n := &linkModel{as: map[string]bool{}, bs: map[string]bool{}, links: map[[2]string]bool{}, rc: map[[2]string]int{}}
+	n := &linkModel{rcPathA: m.rcPathA, rcPathB: m.rcPathB, as: map[string]bool{}, bs: map[string]bool{}, links: map[[2]string]bool{}, rc: map[[2]string]int{}}
 	for k := range m.as {
 		n.as[k] = true
 	}
@@ -54,8 +56,8 @@ func (m *linkModel) Render() *dump.Tree {
 		t.Ensure("root", "bs", k[1], "as").Values[world.TypedKey(k[0])] = []byte{}
 	}
 	for k, c := range m.rc {
-		t.Ensure("root", "as", k[0], "rbs").Values[world.TypedKey(k[1])] = world.EncInt32(int32(c))
-		t.Ensure("root", "bs", k[1], "ras").Values[world.TypedKey(k[0])] = world.EncInt32(int32(c))
+		t.Ensure(append([]string{"root", "as", k[0]}, m.rcPathA...)...).Values[world.TypedKey(k[1])] = world.EncInt32(int32(c))
+		t.Ensure(append([]string{"root", "bs", k[1]}, m.rcPathB...)...).Values[world.TypedKey(k[0])] = world.EncInt32(int32(c))
 	}
 	return t
 }
@@ -65,6 +67,8 @@ type linkScenario struct {
 	A, B     *world.Store
 	la, lb   boltz.LinkCollection
 	ra, rb   boltz.RefCountedLinkCollection
+	rcPathA  []string
+	rcPathB  []string
 	aIds     []string
 	bIds     []string
 	withLink bool
@@ -96,8 +100,16 @@ func newLinkWorldOpt(plain bool) *linkScenario {
 		sc.la = sc.A.AddLinkCollection(symAB, symBA)
 		sc.lb = sc.B.AddLinkCollection(symBA, symAB)
 	}
-	symRAB := sc.A.AddFkSetSymbol("rbs", sc.B)
-	symRBA := sc.B.AddFkSetSymbol("ras", sc.A)
+	var symRAB, symRBA boltz.EntitySymbol
+	if plain {
+		symRAB, symRBA = sc.A.AddFkSetSymbol("rbs", sc.B), sc.B.AddFkSetSymbol("ras", sc.A)
+		sc.rcPathA, sc.rcPathB = []string{"rbs"}, []string{"ras"}
+	} else {
+		// the two sides are ordinary symbols: one stored under another key, the other below a sub-bucket
+		symRAB = sc.A.AddSymbolWithKey("rbs", ast.NodeTypeString, "rbsKey")
+		symRBA = sc.B.AddSymbol("ras", ast.NodeTypeString, "refs")
+		sc.rcPathA, sc.rcPathB = []string{"rbsKey"}, []string{"refs", "ras"}
+	}
 	sc.ra = sc.A.AddRefCountedLinkCollection(symRAB, symRBA)
 	sc.rb = sc.B.AddRefCountedLinkCollection(symRBA, symRAB)
 	return sc
@@ -128,7 +140,7 @@ func (sc *linkScenario) InitDb(db *boltz.DbImpl) error {
 	})
 }
 func (sc *linkScenario) NewModel() explore.Model {
-	return &linkModel{as: map[string]bool{}, bs: map[string]bool{}, links: map[[2]string]bool{}, rc: map[[2]string]int{}}
+	return &linkModel{rcPathA: sc.rcPathA, rcPathB: sc.rcPathB, as: map[string]bool{}, bs: map[string]bool{}, links: map[[2]string]bool{}, rc: map[[2]string]int{}}
 }
 func (sc *linkScenario) Ops() []explore.Op                   { return sc.ops }
 func (sc *linkScenario) Context(_ []int) boltz.MutateContext { return explore.OrdinaryContext() }
